@@ -11,6 +11,14 @@ pub fn build(text: &str) -> Result<Result<Glob<'static>, BuildError>, String> {
     guard(|| Glob::new(text).map(Glob::into_owned))
 }
 
+/// Like `build`, but half of the globs stay *borrowed* (their tokens point into `text`): the
+/// borrowed and the owned token trees take different paths through partitioning and span
+/// arithmetic, and both must be exercised.  Which one is a pure function of the text.
+pub fn build_either(text: &str) -> Result<Result<Glob<'_>, BuildError>, String> {
+    let owned = text.bytes().fold(0u32, |a, b| a.wrapping_mul(31).wrapping_add(b as u32)) % 2 == 1;
+    guard(|| Glob::new(text).map(|g| if owned { g.into_owned() } else { g }))
+}
+
 pub fn pattern_of(text: &str) -> Option<String> {
     match build(text) {
         Ok(Ok(g)) => Some(g.verif_program_pattern().to_string()),
